@@ -58,7 +58,7 @@ THEOREMS = [
         "kfactor_elementwise_ksingle kfactor_elementwise_kdouble arguments_unchanged stats_effects_safe stats_consts_tie "
         # root finders (Props/C20Root.lean)
         "tail_strictMono_q bisect_brackets_root p_query_defined_iff p_query_bracket p_query_exists_unique p_query_close "
-        "newton_monotone_convex "
+        "newton_monotone_convex newton_vector_stops "
         # large samples (Props/C20Limit.lean)
         "ksingle_rate ksingle_tendsto ksingle_ge_normal"
     ).split()
@@ -109,9 +109,8 @@ PARTIAL = (
     "The k-factor half is proved relative to KFactor.Spec (Lean has no executable erf / non-central t / chi-square, so the "
     "cdfs are abstract parameters).  Still not proved: (1) that _getr's Newton loop stops within MAXLOOPS = 100 passes — "
     "proved is: under the measured concavity hypothesis the iterates are monotone and bounded from the first one on and the "
-    "stopping test is reached after finitely many passes for every tol > 0 (no quadratic rate, so no bound by 100), and only "
-    "for one element (the vectorised any() test over several elements is modelled and tied, its termination follows "
-    "elementwise but is not stated); (2) the n -> oo limit of kdouble (needs continuity of the normal quantile and the "
+    "stopping test — also the vectorised one, `not np.any(abs(r - rold) > tol)` over all elements — is reached after finitely "
+    "many passes for every tol > 0 (newton_monotone_convex, newton_vector_stops; no quadratic rate, so no bound by 100); (2) the n -> oo limit of kdouble (needs continuity of the normal quantile and the "
     "chi-square asymptotics): oracle only; the limit of ksingle (k -> z_p, from above for c >= 1/2) is proved relative to "
     "Spec extended by the two measured clauses NctAsym; (3) composition of the nested binary broadcasts inside kdouble into "
     "the ternary broadcast of the model (tied by the exact shape/value stream, not proved)"
@@ -136,8 +135,8 @@ MANIFEST = {
     "kernels; from the specification 'strictly increasing cdf, ppf its inverse' the defining probability equations and "
     "strict monotonicity in p and c are proved; ksingle/kdouble on arrays are the scalar formulas elementwise with ONE "
     "Newton pass count per call (kfactor_elementwise_*); Newton's iterates in _getr are monotone and bounded after the "
-    "first step and reach the stopping test for every tol > 0 (newton_monotone_convex, under a measured concavity "
-    "hypothesis); ksingle -> z_p as n -> oo with an explicit rate, from above for c >= 1/2 (ksingle_tendsto, "
+    "first step and reach the (vectorised) stopping test for every tol > 0 (newton_monotone_convex, newton_vector_stops, "
+    "under a measured concavity hypothesis); ksingle -> z_p as n -> oo with an explicit rate, from above for c >= 1/2 (ksingle_tendsto, "
     "ksingle_ge_normal, under two measured clauses on the nct quantile). All models are tied to the code by exact "
     "integer/rational correspondence (order statistics, packaging) and by Float execution of the same Lean expressions "
     "with scipy supplying kernel values (k-factors, the whole Newton loop with its pass count).",
